@@ -84,7 +84,7 @@ class C18(Prop):
     id = 'C18'
     driver = 'drv_C18'
     model = 'C18'
-    exhaustive = True
+    exhaustive = False        # set per run: True in the thorough tier (see run_check)
     repo = '/repo'
     level_text = ('Machine-checked Coq theorems about an executable model of splitUnit / isSIUnit / isScalable / getSIScaling in which the '
                   'regular expressions are ordered alternations over the PREFIXES, UNITS and PREFIX_FACTORS tables regenerated from '
@@ -114,6 +114,8 @@ class C18(Prop):
     # ---- engine hooks -------------------------------------------------------------------------------------------
     def run_check(self, tier, seed, repo='/repo'):
         self.repo = repo
+        # thorough: every unit string and every ordered pair sharing base and power is run; quick samples the pairs
+        self.exhaustive = (tier == 'thorough')
         return engine.run_check(self, tier, seed, repo)
 
     def compare(self, a, b):
